@@ -38,9 +38,9 @@ fn now_s() -> u64 {
     std::time::SystemTime::now().duration_since(std::time::UNIX_EPOCH).unwrap().as_secs()
 }
 
-const HDR: usize = 8 + 4 + 4 + 4;
+pub(super) const HDR: usize = 8 + 4 + 4 + 4;
 
-fn header(nonce: u64, flow: u32, up: u32, down: u32) -> Vec<u8> {
+pub(super) fn header(nonce: u64, flow: u32, up: u32, down: u32) -> Vec<u8> {
     let mut h = nonce.to_be_bytes().to_vec();
     h.extend_from_slice(&flow.to_be_bytes());
     h.extend_from_slice(&up.to_be_bytes());
@@ -55,7 +55,7 @@ fn parse_header(nonce: u64, b: &[u8]) -> Option<(u32, u32, u32)> {
     Some((u32::from_be_bytes(b[8..12].try_into().unwrap()), u32::from_be_bytes(b[12..16].try_into().unwrap()), u32::from_be_bytes(b[16..20].try_into().unwrap())))
 }
 
-fn stream(nonce: u64, flow: u32, dir: u64, len: usize) -> Vec<u8> {
+pub(super) fn stream(nonce: u64, flow: u32, dir: u64, len: usize) -> Vec<u8> {
     let mut v = vec![0u8; len];
     stream_fill(nonce, flow as u64, dir, 0, &mut v);
     v
@@ -280,7 +280,7 @@ async fn client_side(a: &Args, idx: usize, proto: Proto, ws: bool, rep: &mut Rep
 }
 
 /// A target that reads the header and the upload, then writes the whole download in ONE write and closes.
-async fn burst_target(nonce: u64) -> std::io::Result<(u16, tokio::task::JoinHandle<()>, Arc<Mutex<Vec<String>>>)> {
+pub(super) async fn burst_target(nonce: u64) -> std::io::Result<(u16, tokio::task::JoinHandle<()>, Arc<Mutex<Vec<String>>>)> {
     let l = TcpListener::bind("127.0.0.1:0").await?;
     let port = l.local_addr()?.port();
     let problems = Arc::new(Mutex::new(Vec::new()));
